@@ -621,6 +621,14 @@ func (h *harness) params(c *Case, timeout time.Duration, failWriter bool) rt.Cli
 			h.sources = append(h.sources, s1, s2)
 			_ = req.SetFormParam("field", "v1", "v2")
 			_ = req.SetFileParam("file", s1, s2)
+		case "file-replaced":
+			// the parameter writer sets the files of one field twice (a retry wrapper, a default overridden by the caller):
+			// both sets were handed over, only the second is uploaded; every one of them must end up closed
+			s0 := newSource("old.txt", 30, -1, 0)
+			s1 := newSource("a.txt", c.Len, failAtFor(c), c.Chunk)
+			h.sources = append(h.sources, s0, s1)
+			_ = req.SetFileParam("file", s0)
+			_ = req.SetFileParam("file", s1)
 		case "files-2-fields":
 			s1 := newSource("a.txt", 30, -1, 0)
 			s2 := newSource("b.txt", c.Len, failAtFor(c), c.Chunk)
@@ -718,7 +726,7 @@ const absentCT = "(absent)"
 
 func consumesFor(c *Case) []string {
 	switch c.Payload {
-	case "file", "files+fields", "files-2-fields", "fields", "typed-file", "osfile", "file+dir":
+	case "file", "files+fields", "files-2-fields", "fields", "typed-file", "osfile", "file+dir", "file-replaced":
 		return []string{"multipart/form-data"}
 	case "reader", "readcloser":
 		return []string{"application/octet-stream"}
@@ -1646,6 +1654,15 @@ func enumerate(m *mon.M) []*Case {
 	for _, f := range []string{"writer-error", "auth-error", "bad-path-pattern"} {
 		for _, p := range []string{"file", "files+fields", "files-2-fields"} {
 			cs = append(cs, &Case{Kind: "presend", Fault: f, Payload: p, Len: 700, Reader: "all", CloseFails: true})
+		}
+	}
+	// the files of one field set twice: both sets were handed over
+	for _, f := range []string{"writer-error", "auth-error", "bad-path-pattern"} {
+		cs = append(cs, &Case{Kind: "presend", Fault: f, Payload: "file-replaced", Len: 700, Reader: "all"})
+	}
+	for _, l := range []int{7, 600} {
+		for _, off := range []int{-1, 0, l / 2} {
+			cs = append(cs, &Case{Kind: "upload", Payload: "file-replaced", Len: l, Offset: off, Reader: "all"})
 		}
 	}
 	// answers whose Content-Type is unusable, and bodies far larger than any buffer, left unread
